@@ -135,7 +135,7 @@ def gmrf_cases(draw, integrated=False):
     variant = draw(st.sampled_from(["plain", "weighted", "time_aware", "time_aware"]))
     c = {"variant": variant}
     if variant == "time_aware":
-        g = draw(st.one_of(gc.genealogies(3, 8), gc.genealogies(3, 51)))
+        g = draw(st.one_of(gc.genealogies_scaled(3, 8), gc.genealogies_scaled(3, 51)))
         n = g["n"] - 1
         c["g"] = g
         c["rescale"] = draw(st.sampled_from([None, True, False]))
@@ -204,11 +204,11 @@ def gmrf_res(c, cls, ws):
         nontrivial=n >= 3 and nonconst,
         key=(cls, c["variant"], n, c["B"], c.get("rescale"), c.get("tau_batched"), "heights_rows" in c,
              rnd(c["x"][0][:6]), rnd(c.get("tau", [c.get("shape"), c.get("rate")])), rnd((c.get("weights") or [])[:4]),
-             rnd(c["g"]["coal"][:4]) if "g" in c else None),
+             rnd(c["g"]["coal"][:4]) if "g" in c else None, c["g"].get("tscale") if "g" in c else None),
         labels=(c["variant"], band(n), "batch[]" if c["B"] is None else "batch[B]",
                 "rescale=%s" % c.get("rescale") if c["variant"] == "time_aware" else "no-tree",
                 "hetero" if ("g" in c and any(s > 0 for s in c["g"]["samp"])) else "iso/none",
-                "offset" if abs(c["x"][0][0]) > 50 else "centered"),
+                "offset" if abs(c["x"][0][0]) > 50 else "centered") + ((gc.tscale_band(c["g"]),) if "g" in c else ()),
         tags={"cls": cls, "gmrf": cls, "variant": c["variant"], "unit_weights": unit, "batched": c["B"] is not None,
               "bucket": "%s/%s" % (cls, c["variant"])},
     )
@@ -333,7 +333,7 @@ def rel_gmrf_integrated(res, model, c, ws):
 # =========================================================================== integrated coalescent
 @st.composite
 def coalint_cases(draw):
-    g = draw(st.one_of(gc.genealogies(2, 8), gc.genealogies(2, 50)))
+    g = draw(st.one_of(gc.genealogies_scaled(2, 8), gc.genealogies_scaled(2, 50)))
     B = draw(batches(g["n"]))
     c = {"g": g, "B": B, "alpha": draw(logu(1e-3, 1e2)), "beta": draw(logu(1e-3, 1e2))}
     c["heights_rows"] = draw(height_rows(g, B)) if B is not None else None
@@ -356,7 +356,8 @@ def body_coalint(c):
     res = Res(
         nontrivial=g["n"] >= 3,
         key=("coalint", g["n"], B, rnd(c["alpha"]), rnd(c["beta"]), rnd(g["samp"][:6]), rnd(g["coal"][:6])),
-        labels=(band(g["n"] - 1 if g["n"] > 2 else 2), "hetero" if hetero else "iso", "batch[]" if B is None else "batch[B]"),
+        labels=(band(g["n"] - 1 if g["n"] > 2 else 2), "hetero" if hetero else "iso", "batch[]" if B is None else "batch[B]",
+                gc.tscale_band(g)),
         tags={"cls": "ConstantCoalescentIntegratedModel", "batched": B is not None, "hetero": hetero},
     )
     return rel_coalint(res, model, c)
@@ -395,7 +396,7 @@ def thetas(draw, m, rows):
 def piecewise_part(draw, allow_batched_heights=True, batched_grid_model=True, min_n=2):
     """the coalescent half of a case: kind, form, genealogy, batch, grid"""
     kind = draw(st.sampled_from(["skyride", "skygrid"]))
-    g = draw(st.one_of(gc.genealogies(min_n, 8), gc.genealogies(min_n, 51)))
+    g = draw(st.one_of(gc.genealogies_scaled(min_n, 8), gc.genealogies_scaled(min_n, 51)))
     n = g["n"]
     m = n - 1 if kind == "skyride" else draw(sizes(2, 50))
     B = draw(batches(m))
@@ -408,7 +409,7 @@ def piecewise_part(draw, allow_batched_heights=True, batched_grid_model=True, mi
     if B is not None and form == "tree" and allow_batched_heights and draw(st.booleans()):
         c["heights_rows"] = draw(height_rows(g, rows))
     if kind == "skygrid":
-        c["grid"] = draw(gc.grids(c["heights_rows"] or [g["coal"]], m, samp=g["samp"]))
+        c["grid"] = draw(gc.grids(c["heights_rows"] or [g["coal"]], m, samp=g["samp"], tscale=g.get("tscale", 1.0)))
     return c
 
 
@@ -449,7 +450,7 @@ def piecewise_res(c, sub):
     grid = grid_points(c)
     root = max(g["coal"])
     inside = grid is not None and any(0 < p < root for p in grid)
-    labels = [c["kind"], c["form"], band(max(2, c["m"])), "hetero" if hetero else "iso",
+    labels = [c["kind"], c["form"], band(max(2, c["m"])), "hetero" if hetero else "iso", gc.tscale_band(g),
               "batch[]" if c["B"] is None else ("batch[B]+heights" if c["heights_rows"] else "batch[B]")]
     if grid is not None:
         labels.append("cutoff" if "cutoff" in c["grid"] else "grid")
@@ -601,11 +602,11 @@ def block_row_weights(c, r):
     return og.gmrf_weights(m, c["variant"], weights=c.get("weights"))
 
 
-def vec_close(got, ref, cond):
+def vec_close(got, ref, cond, floor=1.0):
     got, ref, cond = np.asarray(got, float), np.asarray(ref, float), np.asarray(cond, float)
     if got.shape != ref.shape or not np.all(np.isfinite(got)):
         return False
-    return bool(np.all(np.abs(got - ref) <= TOL * np.maximum(1.0, np.abs(ref)) + 8 * EPS * cond))
+    return bool(np.all(np.abs(got - ref) <= TOL * np.maximum(floor, np.abs(ref)) + 8 * EPS * cond))
 
 
 def body_block(c):
@@ -701,7 +702,7 @@ def rel_block(res, op, dic, c, ws, toggle_grad=True, precision_update=True):
             res.fail("pubQ_values:jacobian", {"row": r, "relerr": float(errj), "operator": J[:3, :3].tolist(), "documented": Qo[:3, :3].tolist()})
         Jd = arr(op.jacobian(ssrow, grow, torch.zeros(m, m)))
         dio = sso * np.exp(-gam[r])
-        if Jd.shape != (m, m) or not vec_close(np.diag(Jd), dio, 0.0) or np.any(Jd[~np.eye(m, dtype=bool)] != 0.0):
+        if Jd.shape != (m, m) or not vec_close(np.diag(Jd), dio, 0.0, floor=1e-6 * float(np.max(np.abs(dio))) + 1e-300) or np.any(Jd[~np.eye(m, dtype=bool)] != 0.0):
             res.fail("stats_jacobian", {"row": r, "operator_diagonal": np.diag(Jd)[:6].tolist() if Jd.ndim == 2 else None, "documented": dio[:6].tolist()})
         Jf = arr(op.jacobian(ssrow, grow, Qrow))
         if Jf.shape != (m, m) or not np.allclose(Jf, J + Jd, rtol=1e-12, atol=0.0):
@@ -789,7 +790,7 @@ def gmrf_history_cases(draw):
         if c["tree_kind"] == "ratios":
             c.pop("heights_rows", None)
             c["ratios"] = [[draw(fl(0.05, 0.95)) for _ in range(g["n"] - 2)] for _ in range(trows)]
-            c["root_height"] = [max(g["samp"]) + draw(logu(1e-2, 10.0)) for _ in range(trows)]
+            c["root_height"] = [max(g["samp"]) + g["tscale"] * draw(logu(1e-2, 10.0)) for _ in range(trows)]
             options += ["ratios", "ratios", "root_height", "ratios", "ratios", "root_height"]
         else:
             options += ["heights"] * 6
@@ -811,7 +812,7 @@ def gmrf_history_cases(draw):
             elif what == "ratios":
                 v = [[draw(fl(0.05, 0.95)) for _ in range(c["g"]["n"] - 2)] for _ in range(trows)]
             else:
-                v = [max(c["g"]["samp"]) + draw(logu(1e-2, 10.0)) for _ in range(trows)]
+                v = [max(c["g"]["samp"]) + c["g"]["tscale"] * draw(logu(1e-2, 10.0)) for _ in range(trows)]
             ups.append({"what": what, "how": how, "values": v})
         rounds.append({"updates": ups, "observe": draw(st.sampled_from(OBS_GMRF))})
     c["observe0"] = draw(st.sampled_from(OBS_GMRF))
@@ -931,7 +932,7 @@ def body_gmrf_history(c):
 @st.composite
 def coal_history_cases(draw):
     kind = draw(st.sampled_from(["skyride", "skygrid"]))
-    g = draw(st.one_of(gc.genealogies(3, 8), gc.genealogies(3, 30)))
+    g = draw(st.one_of(gc.genealogies_scaled(3, 8), gc.genealogies_scaled(3, 30)))
     n = g["n"]
     m = n - 1 if kind == "skyride" else draw(sizes(2, 30))
     B = draw(batches(m))
@@ -980,7 +981,7 @@ def coal_history_cases(draw):
         rounds.append({"updates": ups})
     c["rounds"] = rounds
     if kind == "skygrid":
-        c["grid"] = draw(gc.grids(allrows, m, samp=g["samp"]))  # no tie with any state of the history
+        c["grid"] = draw(gc.grids(allrows, m, samp=g["samp"], tscale=g.get("tscale", 1.0)))  # no tie with any state of the history
     return c
 
 
